@@ -337,8 +337,8 @@ func (in *Interp) callFn(fn *ssa.Function, args []Value, bind []Value, caller *f
 	fr.block = fn.Blocks[0]
 	prevFrame := in.curFrame
 	in.curFrame = fr
-	defer func() { in.curFrame = prevFrame }()
 	fr.run()
+	in.curFrame = prevFrame
 	return fr.result
 }
 
